@@ -30,7 +30,7 @@ def pconc(pkind, v):
 
 
 def conc(cls, k):
-    cls = cls.partition("|")[0]
+    cls = cls.partition("|")[0].partition("~")[0]
     """abstract value k in -1..MaxV+1 -> concrete constant / cell of the class (orders preserved)"""
     import numpy as np
     if cls == "int":
@@ -47,7 +47,7 @@ def conc(cls, k):
 
 def column(pd, cls, cells):
     import numpy as np
-    cls = cls.partition("|")[0]
+    cls = cls.partition("|")[0].partition("~")[0]
     if cls == "int":
         return pd.array([pd.NA if c == NULL else conc(cls, c) for c in cells], dtype="Int64")
     if cls == "float":
@@ -143,6 +143,13 @@ def real_filters(prog, cls):
             vals = [pconc(cls.partition("|")[2], c) for c in a["c"]]
         else:
             vals = [conc(ccls, k) for k in a["c"]]
+            # "~f" / "~s": the constants come in a different but comparable type - floats against an integer column, ISO
+            # text against a timestamp column
+            conv = cls.partition("|")[0].partition("~")[2]
+            if conv == "f" and a["col"] == "x":
+                vals = [float(v) for v in vals]
+            elif conv == "s" and a["col"] == "x":
+                vals = [str(v) for v in vals]
         if a["op"] in ("in", "not in"):
             # the constants of a set operator may come in any container: list, tuple, set, frozenset, array
             import numpy as np
@@ -180,7 +187,7 @@ def eval_job(args):
             pg = case["prog"]
             if mentions_p(pg) and not dsinfo["part"]:
                 continue
-            if cls.partition("|")[0] == "str" and any(-1 in a["c"] for g in pg["groups"] for a in g if a["col"] == "x"):
+            if cls.partition("|")[0].partition("~")[0] == "str" and any(-1 in a["c"] for g in pg["groups"] for a in g if a["col"] == "x"):
                 continue      # no text sorts below the empty string that stands for value 0
             filters = real_filters(pg, cls)
             sig = {"ops": sorted({a["op"] for g in pg["groups"] for a in g}), "flat": pg["flat"],
@@ -215,7 +222,7 @@ def eval_job(args):
                     break
             mk = [j for j, i in enumerate(idx) if case["keep"][i]]
             mkb = [j for j, i in enumerate(idx) if case["keepb"][i]]
-            if mk != list(kept) and mkb != list(kept) and cls.partition("|")[0] != "str" and len(out["drift"]) < 5:
+            if mk != list(kept) and mkb != list(kept) and cls.partition("|")[0].partition("~")[0] != "str" and len(out["drift"]) < 5:
                 out["drift"].append({"what": "pruning differs from the mechanism model", "prog": pg,
                                      "real": list(kept)[:10], "model": mk[:10],
                                      "dataset": {k: dsinfo[k] for k in ("stats", "only", "part") if k in dsinfo}})
